@@ -55,7 +55,7 @@ CATALOGUE = [
                                 'check_greater_or_equal'),
      'S@t compared with the end of the previous S element (previous t + d)'),
     ('availabilityStartTime changed across a refresh', f'{V}',
-     ['availabilityStartTime', 'prev.'], COMPARE,
+     [r're:\bprev\w*\.availabilityStartTime\b', r're:(?<!prev_manifest)\.manifest\.availabilityStartTime\b'], COMPARE,
      'availabilityStartTime of the refreshed manifest compared with the previous one'),
 ]
 
@@ -314,6 +314,263 @@ def r18_5(rep: Report) -> None:
         raise AnalysisError('no error reset found in the validator (refresh() changed?)')
 
 
+def r18_6(rep: Report) -> None:
+    """the validator runs to completion: a `super().m(..)` call in the validator package passes
+    arguments the inherited `m` accepts (number of positional arguments, keyword names, required
+    parameters).  A mismatch is a TypeError on every stream that contains the element."""
+    from ..index import Index
+    rid = 'R18.6'
+    pkg = 'dashlive/mpeg/dash/validator'
+    idx = Index(rep.repo, 'dashlive/mpeg/dash')
+    n_calls = 0
+    for q, c in sorted(idx.classes.items()):
+        if not c.rel.startswith(pkg):
+            continue
+        mro = idx.mro(c)
+        for mname, f in c.methods.items():
+            for n in ast.walk(f.node):
+                if not (isinstance(n, ast.Call) and isinstance(n.func, ast.Attribute)
+                        and isinstance(n.func.value, ast.Call) and isinstance(n.func.value.func, ast.Name)
+                        and n.func.value.func.id == 'super' and not n.func.value.args):
+                    continue
+                target = None
+                for k in mro[1:]:
+                    if n.func.attr in k.methods:
+                        target = k.methods[n.func.attr]
+                        break
+                if target is None:
+                    continue            # defined outside the repository (object, a library base)
+                n_calls += 1
+                a = target.node.args
+                params = [x.arg for x in a.posonlyargs + a.args][1:]
+                n_def = len(a.defaults)
+                required = params[:len(params) - n_def] if n_def else list(params)
+                kwonly_req = [x.arg for x, d in zip(a.kwonlyargs, a.kw_defaults) if d is None]
+                construct = f'{c.rel}::{c.name}.{mname}'
+                key = f'super().{n.func.attr}(..) -> {target.cls.name if target.cls is not None else "?"}'
+                if any(isinstance(x, ast.Starred) for x in n.args) or any(k.arg is None for k in n.keywords):
+                    rep.ok(rid, construct, key, 'argument list forwarded with * / **')
+                    continue
+                problem = None
+                if len(n.args) > len(params) and a.vararg is None:
+                    problem = (f'{len(n.args)} positional argument(s) given, {target.cls.name}.{n.func.attr} '
+                               f'takes {len(params)}')
+                names = {k.arg for k in n.keywords}
+                allowed = set(params) | {x.arg for x in a.kwonlyargs}
+                if problem is None and a.kwarg is None and names - allowed:
+                    problem = f'unexpected keyword argument(s) {sorted(names - allowed)}'
+                supplied = set(params[:len(n.args)]) | names
+                missing = [p_ for p_ in required if p_ not in supplied] + [p_ for p_ in kwonly_req if p_ not in names]
+                if problem is None and missing:
+                    problem = f'required argument(s) {missing} not given'
+                if problem is None:
+                    rep.ok(rid, construct, key)
+                else:
+                    rep.fail(rid, construct, key,
+                             f'`{short(n, 60)}`: {problem} - a TypeError whenever this element is validated, so the '
+                             'validator does not terminate normally on a stream that contains it', n, file=c.rel)
+    if n_calls < 10:
+        raise AnalysisError(f'only {n_calls} super() calls resolved in the validator package')
+
+
+def _always_default_params(idx, pkg: str) -> dict[str, dict[str, object]]:
+    """method qualname -> {parameter: constant default} for parameters that no *live* call in the
+    package passes (by position or keyword): inside the package such a parameter always has its
+    default.  Optimistic fixpoint (as in conditional constant propagation): start from "every
+    defaulted parameter keeps its default", drop the parameters some call outside dead code passes,
+    recompute the dead code, repeat."""
+    funcs = {q: f for q, f in idx.functions.items() if f.rel.startswith(pkg) and f.cls is not None}
+    cand: dict[str, dict[str, object]] = {}
+    pos: dict[str, list[str]] = {}
+    for q, f in funcs.items():
+        a = f.node.args
+        params = [x.arg for x in a.args][1:]
+        pos[q] = params
+        defaults = dict(zip(params[len(params) - len(a.defaults):], a.defaults)) if a.defaults else {}
+        for p_, d in defaults.items():
+            try:
+                cand.setdefault(q, {})[p_] = ast.literal_eval(d)
+            except (ValueError, SyntaxError):
+                pass
+    by_name: dict[str, list[str]] = {}
+    for q, f in funcs.items():
+        by_name.setdefault(f.node.name, []).append(q)
+    for _ in range(10):
+        given: dict[str, set] = {}
+        for q, f in idx.functions.items():
+            if not f.rel.startswith(pkg):
+                continue
+            dead = _dead_by_default(f.node, cand.get(q, {}))
+            for n in ast.walk(f.node):
+                if isinstance(n, ast.Call) and isinstance(n.func, ast.Attribute) and id(n) not in dead:
+                    g = given.setdefault(n.func.attr, set())
+                    for i, a_ in enumerate(n.args):
+                        g.add('*' if isinstance(a_, ast.Starred) else i)
+                    for k in n.keywords:
+                        g.add(k.arg if k.arg is not None else '**')
+        changed = False
+        for q in list(cand):
+            g = given.get(funcs[q].node.name, set())
+            for p_ in list(cand[q]):
+                i = pos[q].index(p_)
+                if '*' in g or '**' in g or i in g or p_ in g:
+                    del cand[q][p_]
+                    changed = True
+        if not changed:
+            break
+    return {q: v for q, v in cand.items() if v}
+
+
+def _dead_by_default(fn: ast.AST, consts: dict[str, object]) -> set[int]:
+    """ids of statements under an `if` whose test compares an always-default parameter with a constant
+    and is false"""
+    dead: set[int] = set()
+    for n in ast.walk(fn):
+        if not isinstance(n, ast.If) or not isinstance(n.test, ast.Compare) or len(n.test.ops) != 1:
+            continue
+        l, r = n.test.left, n.test.comparators[0]
+        if isinstance(l, ast.Name) and l.id in consts and isinstance(r, ast.Constant):
+            a_, b_ = consts[l.id], r.value
+            try:
+                val = {ast.Gt: lambda: a_ > b_, ast.GtE: lambda: a_ >= b_, ast.Lt: lambda: a_ < b_,
+                       ast.LtE: lambda: a_ <= b_, ast.Eq: lambda: a_ == b_, ast.NotEq: lambda: a_ != b_,
+                       }[type(n.test.ops[0])]()
+            except (KeyError, TypeError):
+                continue
+            for b in (n.body if not val else n.orelse):
+                for x in ast.walk(b):
+                    dead.add(id(x))
+    return dead
+
+
+# one named method, with the reason it is not judged; the reason is re-checked on every run
+NOT_REACHED = {
+    ('Scte35Binary', 'validate'):
+        'Scte35Binary objects are held only by Scte35EventElement._children, whose validate() is called only '
+        'from DashEvent.validate under `depth > 0`; no call in the package passes a depth, so it is always -1',
+}
+
+
+def _scte35_chain_is_dead(idx, always) -> bool:
+    ev = 'dashlive.mpeg.dash.validator.events.'
+    de = idx.functions.get(ev + 'DashEvent.validate')
+    if de is None:
+        return False
+    # (1) DashEvent.validate(depth=-1) calls validate() on its children only under `depth > 0`
+    a = de.node.args
+    params = [x.arg for x in a.args][1:]
+    if params != ['depth'] or len(a.defaults) != 1:
+        return False
+    try:
+        if ast.literal_eval(a.defaults[0]) != -1:
+            return False
+    except (ValueError, SyntaxError):
+        return False
+    dead = _dead_by_default(de.node, {'depth': -1})
+    calls = [n for n in ast.walk(de.node) if isinstance(n, ast.Call) and isinstance(n.func, ast.Attribute)
+             and n.func.attr == 'validate']
+    if not calls or any(id(n) not in dead for n in calls):
+        return False
+    # (2) Scte35Binary is constructed only inside Scte35EventElement, Scte35EventElement only inside
+    #     DashEvent, DashEvent only inside EventStreamBase (into self.events)
+    for cls_name, owner in (('Scte35Binary', 'Scte35EventElement'), ('Scte35EventElement', 'DashEvent'),
+                            ('DashEvent', 'EventStreamBase')):
+        for q, f in idx.functions.items():
+            for n in ast.walk(f.node):
+                if isinstance(n, ast.Call) and call_name(n) == cls_name:
+                    if f.cls is None or f.cls.name != owner:
+                        return False
+    # (3) every validate() call on an element of `self.events` passes no depth
+    n_sites = 0
+    for q, f in idx.functions.items():
+        for loop in ast.walk(f.node):
+            if isinstance(loop, (ast.For, ast.comprehension)) and norm(loop.iter) == 'self.events' \
+                    and isinstance(loop.target, ast.Name):
+                scope = loop if isinstance(loop, ast.For) else f.node
+                for n in ast.walk(scope):
+                    if isinstance(n, ast.Call) and isinstance(n.func, ast.Attribute) and n.func.attr == 'validate' \
+                            and norm(n.func.value) == loop.target.id:
+                        n_sites += 1
+                        if n.args or n.keywords:
+                            return False
+    return n_sites > 0
+
+
+def r18_7(rep: Report) -> None:
+    """the validator runs to completion: `self.x` is read only where some class of the hierarchy
+    defines x (an entry of an `attributes` table, an assignment to self.x, a method, property or class
+    attribute).  Anything else is an AttributeError when the statement runs.  Methods that are only
+    called under a test that is false for the argument values the package ever passes (a `depth`
+    parameter left at its default) are not judged."""
+    from ..index import Index
+    rid = 'R18.7'
+    pkg = 'dashlive/mpeg/dash/validator'
+    idx = Index(rep.repo, 'dashlive/mpeg/dash')
+    always = _always_default_params(idx, pkg)
+    # methods called only from dead code: fixpoint over by-name edges
+    live_calls: set[str] = set()
+    funcs = {q: f for q, f in idx.functions.items() if f.rel.startswith(pkg)}
+    for q, f in funcs.items():
+        dead = _dead_by_default(f.node, always.get(q, {}))
+        for n in ast.walk(f.node):
+            if isinstance(n, ast.Call) and id(n) not in dead:
+                nm = n.func.attr if isinstance(n.func, ast.Attribute) else (
+                    n.func.id if isinstance(n.func, ast.Name) else None)
+                if nm:
+                    live_calls.add(nm)
+    n_reads = 0
+    for q, c in sorted(idx.classes.items()):
+        if not c.rel.startswith(pkg):
+            continue
+        names: set[str] = set()
+        open_world = False
+        for k in idx.mro(c):
+            if any(b for b in k.ext_bases if b.split('.')[-1] not in ('ABC', 'object', 'Generic', 'Protocol')):
+                open_world = True
+            names |= set(k.methods) | set(k.attrs)
+            for st in k.node.body:
+                if isinstance(st, (ast.Assign, ast.AnnAssign)):
+                    t = st.targets[0] if isinstance(st, ast.Assign) else st.target
+                    if isinstance(t, ast.Name) and t.id == 'attributes' and getattr(st, 'value', None) is not None:
+                        for tup in ast.walk(st.value):
+                            if isinstance(tup, ast.Tuple) and tup.elts and isinstance(tup.elts[0], ast.Constant) \
+                                    and isinstance(tup.elts[0].value, str):
+                                names.add(tup.elts[0].value)
+            for n in ast.walk(k.node):
+                if isinstance(n, ast.Attribute) and isinstance(n.ctx, ast.Store) and isinstance(n.value, ast.Name) \
+                        and n.value.id == 'self':
+                    names.add(n.attr)
+                if isinstance(n, ast.Call) and call_name(n) == 'setattr' and n.args and norm(n.args[0]) == 'self' \
+                        and len(n.args) > 1 and isinstance(n.args[1], ast.Constant):
+                    names.add(n.args[1].value)
+                if isinstance(n, ast.FunctionDef) and n.name == '__getattr__':
+                    open_world = True
+        if open_world:
+            continue
+        for mname, f in c.methods.items():
+            if mname not in live_calls and not mname.startswith('__'):
+                continue                    # never called from live code of the package
+            if (c.name, mname) in NOT_REACHED:
+                chain_ok = _scte35_chain_is_dead(idx, always)
+                if chain_ok:
+                    rep.ok(rid, f'{c.rel}::{c.name}.{mname}', 'not reached', NOT_REACHED[(c.name, mname)])
+                    continue
+            dead = _dead_by_default(f.node, always.get(f.qual, {}))
+            for n in ast.walk(f.node):
+                if isinstance(n, ast.Attribute) and isinstance(n.ctx, ast.Load) and isinstance(n.value, ast.Name) \
+                        and n.value.id == 'self' and id(n) not in dead and not n.attr.startswith('__'):
+                    n_reads += 1
+                    if n.attr in names:
+                        continue
+                    rep.fail(rid, f'{c.rel}::{c.name}.{mname}', f'self.{n.attr}',
+                             f'`self.{n.attr}` is read but no class of the hierarchy of {c.name} defines `{n.attr}` '
+                             '(not in an `attributes` table, never assigned, not a method or property): an '
+                             'AttributeError stops the validator when this statement runs', n, file=c.rel)
+    if n_reads < 500:
+        raise AnalysisError(f'only {n_reads} attribute reads found in the validator package')
+    rep.ok(rid, pkg, 'attribute reads resolve', f'{n_reads} reads of self.<name> in live methods')
+
+
 def analyse(rep: Report) -> None:
     rep.explanation = (
         'Detection side of C18 as an inventory: for each corruption kind of the property the '
@@ -326,7 +583,11 @@ def analyse(rep: Report) -> None:
     rep.rule('R18.3', 'validator while-loops make progress', floor=1)
     rep.rule('R18.4', 'checks on optional numeric expectations are guarded by `is not None`', floor=3)
     rep.rule('R18.5', 'errors are cleared only after they were archived in the validation history', floor=1)
+    rep.rule('R18.6', 'super() calls in the validator pass arguments the inherited method accepts', floor=10)
+    rep.rule('R18.7', 'attributes read from self are defined somewhere in the class hierarchy', floor=1)
     r18_1_2(rep)
     r18_3(rep)
     r18_4(rep)
     r18_5(rep)
+    r18_6(rep)
+    r18_7(rep)
